@@ -315,6 +315,9 @@ func runC07(c *Ctx, r *Report) {
 	r.Rule("C07.R14", "rasterizer coordinates are bounded: every call of vector.Rasterizer.MoveTo/LineTo/QuadTo/CubeTo lies on the no-error edge of a validating helper applied to the callback's argument list; the helper compares each element's float with a lower and an upper constant within (-2^22, 2^22) in the NaN-rejecting form, returns an error from inside its loop and nil only after it")
 	c.checkRasterizerCoords(r, "C07.R14")
 
+	r.Rule("C07.R15", "the node ast.Modify hands back is used only when there is one: outside of package ast every method invoked on its first result lies on the true edge of its ok result or on the non-nil edge of a test of the node")
+	c.checkModifyResultUse(r, "C07.R15")
+
 	// shared C08.R8
 	r.Rule("C08.R8", "(shared) a parsed tree is evaluated only after both parser verdicts (errors, continuation request) were found clear: a tree with missing nodes is a nil dereference in the evaluator")
 	c.checkParserVerdicts(r, "C08.R8")
